@@ -23,6 +23,8 @@ package cafs
 //@   call pFlush#1 assert [full-leaf] $isLastNode == false && len($buffer) == w.leafSize
 //@   call pFlush#1 assert [own-buffer] $buffer == w.buf
 //@   call pFlush#1 assert [leaf-number] $count == w.count && $leafSize == w.leafSize
+//@   call copy#1 assert [next-free-position] $0 == w.buf[w.offset:]
+//@   call copy#1 assert [next-unconsumed-bytes] len($1) > 0 && $1 == p[written:written+len($1)]
 
 // ---- leaf / root hashing configuration (C02: the on-disk BLAKE2b tree convention) --------------
 // H itself (minio/blake2b-simd) is trusted; what is proved is that the hasher is configured with
@@ -152,4 +154,11 @@ package cafs
 //@   requires r != nil && off >= 0 && r.leafSize > 0
 //@   call r.pather#1 pure
 //@   loop 1 invariant [bounds] 0 <= readBytes && readBytes <= len(data) && 0 <= index && index < len(r.keys) && offset >= 0
+//@   call copy#1 assert [next-free-position] $0 == data[readBytes:]
+//@   call copy#1 assert [from-leaf-offset] $1 == leaf[offset:]
+//@   call r.readLeaf#1 assert [leaf-of-index] $0 == r.keys[index] && $1 == index
+//@   call Bytes#1 assume index + 1 < len(r.keys) ==> len($ret0) == r.leafSize
+//@   call r.readLeaf#1 assume r.leafSize == old(r.leafSize) && r.keys == old(r.keys)
+//@   call r.addToCache#1 assume r.leafSize == old(r.leafSize) && r.keys == old(r.keys)
+//@   loop 1 invariant [position] index*r.leafSize + offset == off + readBytes && offset < r.leafSize && r.leafSize == old(r.leafSize)
 //@   ensures [count] 0 <= readBytes && readBytes <= len(data)
